@@ -17,7 +17,9 @@ Shape S over process history + owned environment.
 import io
 import itertools
 import json
+import os
 import re
+import shutil
 
 from mc import seams
 from mc.runner import Part, Res, digest
@@ -526,5 +528,79 @@ class GeneratedSalt(Part):
         return res
 
 
+class Leftovers(Part):
+    name = "output_left_by_an_earlier_run"
+    desc = "every ordered pair of runs (other salt, other options, longer / shorter / other input, directory or single file, main or anonymize_files) into the same output path: the second run's bytes equal those of the same run into a fresh path"
+
+    RUNS = [
+        {"salt": "saltForTest", "opts": ["-a", "-p"], "text": "T"},
+        {"salt": "otherSalt-otherSalt", "opts": ["-a", "-p"], "text": "T"},
+        {"salt": "saltForTest", "opts": ["-p"], "text": "T"},
+        {"salt": "saltForTest", "opts": ["-a", "-p", "-n", "65001,12"], "text": "T+"},   # longer input
+        {"salt": "saltForTest", "opts": ["-a"], "text": "T-"},                          # shorter input
+        {"salt": "s", "opts": ["-a", "-w", "sea,seattle"], "text": "T"},
+    ]
+
+    def __init__(self, tier, seed):
+        self.tier, self.seed = tier, seed
+
+    def cases(self):
+        return [{"first": i, "shape": s, "entry": e} for i in range(len(self.RUNS)) for s in ("dir", "file")
+                for e in ("main", "anonymize_files")]
+
+    def _text(self, k):
+        return {"T": TEXT, "T+": TEXT + TEXT + "router bgp 65001\n" * 40, "T-": "".join(l + "\n" for l in TEXT_LINES[:4])}[k]
+
+    def _go(self, run, shape, entry, root, tag, outp):
+        from netconan.netconan import main
+
+        ind = os.path.join(root, "in-" + tag)
+        seams.write_tree(ind, {"r.cfg": self._text(run["text"])})
+        src = ind if shape == "dir" else os.path.join(ind, "r.cfg")
+        with seams.capture_logs(), seams.capture_stdio():
+            if entry == "main":
+                main(["-i", src, "-o", outp, "-s", run["salt"]] + list(run["opts"]))
+            else:
+                from netconan.anonymize_files import anonymize_files
+
+                o = run["opts"]
+                anonymize_files(src, outp, anon_pwd="-p" in o, anon_ip="-a" in o, salt=run["salt"],
+                                as_numbers=o[o.index("-n") + 1].split(",") if "-n" in o else None,
+                                sensitive_words=o[o.index("-w") + 1].split(",") if "-w" in o else None,
+                                preserve_suffix_v4=8, preserve_suffix_v6=8)
+        seams.restore_globals()
+        p = os.path.join(outp, "r.cfg") if shape == "dir" else outp
+        with open(p, "rb") as fh:
+            return fh.read()
+
+    def run(self, case):
+        res = Res()
+        root = seams.scratch_dir("c13l")
+        try:
+            first = self.RUNS[case["first"]]
+            seconds = [case["second"]] if "second" in case else range(len(self.RUNS))
+            for j in seconds:
+                second = self.RUNS[j]
+                shared = os.path.join(root, "shared-%d" % j) + ("" if case["shape"] == "dir" else ".cfg")
+                fresh = os.path.join(root, "fresh-%d" % j) + ("" if case["shape"] == "dir" else ".cfg")
+                self._go(first, case["shape"], case["entry"], root, "a%d" % j, shared)
+                got = self._go(second, case["shape"], case["entry"], root, "b%d" % j, shared)
+                want = self._go(second, case["shape"], case["entry"], root, "c%d" % j, fresh)
+                res.evals += 1
+                res.states += 1
+                res.transitions += 3
+                res.nt((case["first"], j, case["shape"], case["entry"]))
+                res.out(len(got) == len(want))
+                if got != want:
+                    res.violation("output-depends-on-what-an-earlier-run-left|%s|%s" % (case["shape"], case["entry"]),
+                                  "after run %r, run %r into the same output path gives %d bytes (tail %r), into a fresh path %d bytes" % (
+                                      first, second, len(got), got[-50:], len(want)), dict(case, second=j))
+            if "second" not in case:
+                res.samples.append({"first": first, "shape": case["shape"], "entry": case["entry"]})
+        finally:
+            shutil.rmtree(root, ignore_errors=True)
+        return res
+
+
 def parts(tier, seed):
-    return [Repetition(tier, seed), HashSeeds(tier, seed), History(tier, seed), GeneratedSalt(tier, seed)]
+    return [Repetition(tier, seed), HashSeeds(tier, seed), History(tier, seed), GeneratedSalt(tier, seed), Leftovers(tier, seed)]
